@@ -116,6 +116,49 @@ def configure(g, c):
     return g
 
 
+def reference_simulation(c, coords, height):
+    """the returned field at the returned height, simulated from the REQUESTED inputs through the low-level classes only
+    (GHEFluid / Pipe / Soil / Grout / GHEBorehole / calc_g_func_for_multiple_lengths / GHE): nothing of the manager, the design
+    object or the search is reused, so a value lost, swapped or kept from an earlier call on the way in shows up here"""
+    from ghedesigner.borehole import GHEBorehole
+    from ghedesigner.enums import BHPipeType, TimestepType
+    from ghedesigner.gfunction import calc_g_func_for_multiple_lengths
+    from ghedesigner.ground_heat_exchangers import GHE
+    from ghedesigner.media import GHEFluid, Grout, Pipe, Soil
+    from ghedesigner.simulation import SimulationParameters
+    from ghedesigner.utilities import borehole_spacing, eskilson_log_times
+    fl, gr, so, pp, bh, gc, dz = c["fluid"], c["grout"], c["soil"], dict(c["pipe"]), c["borehole"], c["geometric_constraints"], c["design"]
+    fluid = GHEFluid(fluid_str=fl["fluid_name"], percent=fl["concentration_percent"], temperature=fl.get("temperature", 20))
+    grout = Grout(gr["conductivity"], gr["rho_cp"])
+    soil = Soil(so["conductivity"], so["rho_cp"], so["undisturbed_temp"])
+    arr = pp.pop("arrangement").upper()
+    if arr == "COAXIAL":
+        bt = BHPipeType.COAXIAL
+        pipe = Pipe((0, 0), [pp["inner_pipe_d_in"] / 2.0, pp["inner_pipe_d_out"] / 2.0], [pp["outer_pipe_d_in"] / 2.0, pp["outer_pipe_d_out"] / 2.0], 0,
+                    pp["roughness"], [pp["conductivity_inner"], pp["conductivity_outer"]], pp["rho_cp"])
+    else:
+        bt = {"SINGLEUTUBE": BHPipeType.SINGLEUTUBE, "DOUBLEUTUBEPARALLEL": BHPipeType.DOUBLEUTUBEPARALLEL, "DOUBLEUTUBESERIES": BHPipeType.DOUBLEUTUBESERIES}[arr]
+        n = 1 if arr == "SINGLEUTUBE" else 2
+        ro = pp["outer_diameter"] / 2.0
+        pipe = Pipe(Pipe.place_pipes(pp["shank_spacing"], ro, n), pp["inner_diameter"] / 2.0, ro, pp["shank_spacing"], pp["roughness"], pp["conductivity"], pp["rho_cp"])
+    # built at the maximum height, as every candidate is (the hybrid loads belong to the construction height); the long-time family for
+    # the sizing window is then computed for this field and the returned height is set, exactly as the last steps of a design do
+    borehole = GHEBorehole(gc["max_height"], bh["buried_depth"], bh["diameter"] / 2.0, 0.0, 0.0)
+    nbh = len(coords)
+    v = dz["flow_rate"]
+    v_sys = v * nbh if dz["flow_type"].upper() == "BOREHOLE" else v
+    m_bh = v_sys / nbh / 1000.0 * fluid.rho
+    sp = SimulationParameters(1, c["simulation"]["num_months"], dz["max_eft"], dz["min_eft"], gc["max_height"], gc["min_height"])
+    b = borehole_spacing(borehole, coords)
+    gfn = calc_g_func_for_multiple_lengths(b, [borehole.H], borehole.r_b, borehole.D, m_bh, bt, eskilson_log_times(), coords, fluid, pipe, grout, soil)
+    ghe = GHE(v_sys, b, bt, fluid, borehole, pipe, grout, soil, gfn, sp, list(c["loads"]["ground_loads"]))
+    ghe.compute_g_functions()
+    ghe.bhe.b.H = height
+    mx, mn = ghe.simulate(method=TimestepType.HYBRID)
+    return {"max": float(mx), "min": float(mn), "excess": float(max(mx - dz["max_eft"], dz["min_eft"] - mn)), "m_flow_borehole": float(m_bh),
+            "hybrid_axis_end_h": float(ghe.hybrid_load.hour[-1])}
+
+
 def summarise(g, with_series=False):
     s = g._search
     ghe = s.ghe
@@ -203,6 +246,10 @@ def run(cfg, outdir=None, with_series=False):
         mx, mn = ghe.simulate(method=TimestepType.HYBRID)
         res["resim_max"], res["resim_min"] = mx, mn
         res["resim_excess"] = ghe.cost(mx, mn)
+        try:
+            res["reference"] = reference_simulation(c, [tuple(p) for p in res["coords"]], float(res["H"]))
+        except Exception as ex_:
+            res["reference_error"] = f"{type(ex_).__name__}: {str(ex_)[:200]}"
         # the candidate just before the selected one, evaluated afresh at the maximum height (C05: it must fail there);
         # through initialize_ghe + simulate, not through the search's own calculate_excess / calculated_temperatures
         s = g._search
